@@ -1,3 +1,5 @@
 import Geo.Props.C13
 open Geo
-#print axioms C13_placeholder
+#print axioms T13_from_points_contains
+#print axioms T13_ellipse_locus
+#print axioms T13_sphere_locus
